@@ -347,6 +347,30 @@ class Quantity:
     def ndim(self):
         return getattr(self.mag, "ndim", 0) if not isinstance(self.mag, (list, tuple)) else 1
 
+    @property
+    def shape(self):
+        if isinstance(self.mag, (list, tuple)):
+            return (len(self.mag),)
+        return tuple(getattr(self.mag, "shape", ()))
+
+    @property
+    def size(self):
+        n = 1
+        for d in self.shape:
+            n *= d
+        return n
+
+    def __getattr__(self, name):
+        # attributes a real quantities.Quantity (an ndarray subclass) has and this abstraction does not model: asking for one is a limit of the
+        # abstraction (Unsupported cannot be caught by the `except AttributeError` clauses of the code under test), anything else is a real
+        # AttributeError
+        if not name.startswith("_"):
+            import numpy as _np
+            if hasattr(_np.ndarray, name):
+                from .sym import Unsupported
+                raise Unsupported("the unit abstraction does not model Quantity.%s" % name)
+        raise AttributeError(name)
+
     def raw_float(self):
         """float(q): the magnitude, whatever the units"""
         return self.mag
